@@ -303,6 +303,7 @@ def job_wrapper(job, n, cols, cls, frame):
 
 def job_columns(job):
     """Every subset of the known columns: ValueError iff neither required set is present."""
+    SS.selftest(job, job.seed)
     mod = _load()
     job.encoded(mod, "FlowProperties.__init__", "FlowPropertiesSimple.__init__")
     allc = sorted(set(LONG) | set(SHORT))
